@@ -131,6 +131,11 @@ pub fn gen_config(profile: &str, rng: &mut Rng, tier: Tier) -> Config {
 	w(&mut weights, "Sync", 0);
 	w(&mut weights, "Reorg", 0);
 	w(&mut weights, "Resend", 0);
+	// not an action: one payment event in N is refused by the application's handler (replayed later)
+	w(&mut weights, "ReplayEvent", 0);
+	if matches!(profile, "forward" | "payments" | "receive" | "crash" | "asyncpersist" | "roundtrip") {
+		w(&mut weights, "ReplayEvent", *r.pick(&[0, 0, 6, 20]));
+	}
 	if matches!(profile, "forward" | "payments" | "offchain" | "crash") {
 		w(&mut weights, "Resend", *r.pick(&[0, 1, 2]));
 	}
@@ -796,7 +801,13 @@ pub fn gen_liq_plan(wd: &World, rng: &mut Rng) -> Action {
 	// shallow reorganisations while claims are in flight
 	let mut reorgs = Vec::new();
 	for _ in 0..rng.below(3) {
-		reorgs.push((rng.below(30) as u32, *rng.pick(&[1u32, 1, 1, 2, 3, 5])));
+		let depth = *rng.pick(&[1u32, 1, 1, 2, 3, 5]);
+		// in a quarter of them the removed transactions are gone from the mempool as well
+		let lost = if wd.cfg.profile == "onchain" && rng.chance(1, 4) { 100 } else { 0 };
+		// (only in the first rounds: later the harness's own wallet has sweeps in those blocks,
+		// and nobody models its re-broadcasts)
+		let round = if lost > 0 { 1 + rng.below(4) as u32 } else { rng.below(30) as u32 };
+		reorgs.push((round, depth + lost));
 	}
 	Action::LiqPlan { holds, restarts, fees, reorgs }
 }
